@@ -405,7 +405,7 @@ pub fn run(ctx: &Ctx) -> Report {
         });
         rep.merge(r);
     }
-    if !ctx.miri && ctx.only.is_none() {
+    if ctx.strict() {
         rep.require("eof_cuts", 1000);
         rep.require("eof_ok_expected_and_seen", 30);
         rep.require("eof_err_expected_and_seen", 1000);
